@@ -48,6 +48,9 @@ func (g *srcGen) pick(n int) int { return g.r.Intn(n) }
 
 func (g *srcGen) chance(p float64) bool { return g.r.Float64() < p }
 
+var builtinNames = []string{"matchLength", "match", "matchNumber", "startOffset", "endOffset", "value", "lineNumber",
+	"columnNumber", "totalMatches", "filename"}
+
 func (g *srcGen) fresh(prefix string) string {
 	g.nameCtr++
 	return fmt.Sprintf("%s%d", prefix, g.nameCtr)
@@ -215,6 +218,11 @@ func (g *srcGen) expr(depth int) string {
 		g.feat("capture")
 		lit := g.literal(depth - 1)
 		name := g.fresh("v")
+		if g.cfg.Transforms && g.chance(0.07) {
+			// a capture that carries the name of something the engine itself defines for process code and with lists
+			g.feat("capture-named-like-builtin")
+			name = builtinNames[g.pick(len(builtinNames))]
+		}
 		g.caps = append(g.caps, name)
 		return lit + " = " + name
 	case x < 0.45:
@@ -402,7 +410,12 @@ func (g *srcGen) transform(vars []string) string {
 		stmts = append(stmts, []string{"set q to n - 'b'", "set q to i * 'c'", "if i and true then return 'k' end"}[g.pick(3)])
 	}
 	for i := 0; i < nset; i++ {
-		switch g.pick(6) {
+		switch g.pick(7) {
+		case 6:
+			// built-in names in operations that only one of their possible types allows
+			g.feat("transform-builtin-in-typed-operation")
+			stmts = append(stmts, []string{"set q to match - matchLength", "set q to match * matchNumber", "set q to matchLength - 1",
+				"set q to matchNumber * matchLength", "set q to match - startOffset"}[g.pick(5)])
 		case 0:
 			g.feat("transform-set-match")
 			stmts = append(stmts, "set match to tail match")
